@@ -399,3 +399,108 @@ Example C07_sivr_event_functions_example :
   /\ vsummarise (VGated [SUnpack] (1 # 4) (3 # 4) [SChange 1; SMarkOcc true; SEnter 3%nat] [SChange 2; SMarkOcc true; SEnter 2%nat]) = None
   /\ vsummarise (VPlain (PNode [SChange 2; SSetAttr; SLeave 3%nat; SLeave 2%nat])) = Some (VRemove 2 2%nat 3%nat).
 Proof. repeat split; vm_compute; reflexivity. Qed.
+
+(* ================================================================================================
+   SIR_VariableInfection: whole runs over the state-dependent event table of Model/KernelDyn.v (Model/CompartVI.v,
+   co-executed through Tie/CompartVI.v).  VJ is the run invariant of the static-table models (kernel loci = sorted
+   handler loci, C01's loci invariant, fixed network, every node in a compartment of the model) applied to the
+   variable-infection table; the posted-removal subclass of the harness (vim_seed_post = Some _) is covered by the
+   run theorems, its posted removals by co-execution only. Proofs: Proofs/KernelDyn*.v, CompartVI.v, CompartVIMain.v. *)
+From EpyV Require Import Model.KernelDyn Model.CompartVI Proofs.KernelDyn Proofs.KernelDynLoops Proofs.KernelDynRun
+  Proofs.KernelDynStatic Proofs.CompartVI Proofs.CompartVIMain.
+
+Theorem C07_vi_table_facts : forall p,
+  vi_nopost (sir_vi p) = true /\ wf_loci (vim_specs (sir_vi p)) = true
+  /\ vi_arrows (sir_vi p) = [(1, 2); (3, 1)]%Z                     (* I > R, S > I *)
+  /\ cm_comps (vi_cm (sir_vi p)) = [3; 2; 1]%Z.
+Proof. exact CVI_sir_vi_facts. Qed.
+
+Theorem C07_vi_runs_stoch : forall vm nodes edges init inf maxtime monitor pf fuel rs ls ds,
+  wf_loci (vim_specs vm) = true -> graph_okb nodes edges = true -> init_ok (vi_cm vm) nodes init = true ->
+  let D := mk_vitable vm nodes edges init inf maxtime monitor in
+  exists cs, DSteps D (fun _ => True) (setup_state (d_tb D) rs ls ds) cs (r_final (dstoch_run D pf fuel rs ls ds))
+    /\ VJ vm nodes edges (r_final (dstoch_run D pf fuel rs ls ds)) /\ Forall (fun sc => VJ vm nodes edges (fst sc)) cs.
+Proof. exact CVI_vi_stoch_run. Qed.
+
+Theorem C07_vi_runs_sync : forall vm nodes edges init inf maxtime monitor pf fuel rs ds,
+  wf_loci (vim_specs vm) = true -> graph_okb nodes edges = true -> init_ok (vi_cm vm) nodes init = true ->
+  let D := mk_vitable vm nodes edges init inf maxtime monitor in
+  exists cs, DSteps D (Xpos) (setup_state (d_tb D) rs [] ds) cs (r_final (dsync_run D pf fuel rs ds))
+    /\ VJ vm nodes edges (r_final (dsync_run D pf fuel rs ds)) /\ Forall (fun sc => VJ vm nodes edges (fst sc)) cs.
+Proof. exact CVI_vi_sync_run. Qed.
+
+Theorem C07_vi_partition : forall vm nodes edges (s : st viworld), VJ vm nodes edges s ->
+  let st := cw_st (vi_base (world s)) in
+  st_nodes st = nodes /\ st_edges st = edges
+  /\ (forall v, In v nodes -> exists c, getc st v = Some c /\ In c (cm_comps (vi_cm vm)))
+  /\ NoDup (cm_comps (vi_cm vm))
+  /\ lsum (map (count_in st) (cm_comps (vi_cm vm))) = length nodes.
+Proof. exact CVI_vi_partition. Qed.
+
+Theorem C07_vi_diagram : forall vm nodes edges init inf maxtime monitor Xtr c (s : st viworld),
+  let D := mk_vitable vm nodes edges init inf maxtime monitor in
+  VJ vm nodes edges s -> dcall_ok D Xtr c s -> (forall h, c <> DPost h) ->
+  forall v, getc (cw_st (vi_base (world (dafter D c s)))) v <> getc (cw_st (vi_base (world s))) v ->
+  exists l c', getc (cw_st (vi_base (world s))) v = Some l /\ getc (cw_st (vi_base (world (dafter D c s)))) v = Some c'
+    /\ In (l, c') (vi_arrows vm).
+Proof. exact CVI_vi_diagram. Qed.
+
+Theorem C07_vi_only_observe_queued : forall vm nodes edges init inf maxtime monitor Xtr rs ls ds cs (s : st viworld),
+  let D := mk_vitable vm nodes edges init inf maxtime monitor in
+  vi_nopost vm = true -> DSteps D Xtr (setup_state (d_tb D) rs ls ds) cs s ->
+  qinv (vi_posted vm) s /\ Forall (fun sc => qinv (vi_posted vm) (fst sc)) cs.
+Proof. exact CVI_vi_only_observe_queued. Qed.
+
+Theorem C07_vi_posted_inert : forall vm nodes edges init inf maxtime monitor Xtr h (s : st viworld),
+  let D := mk_vitable vm nodes edges init inf maxtime monitor in
+  qinv (vi_posted vm) s -> dcall_ok D Xtr (DPost h) s ->
+  world (dafter D (DPost h) s) = world s /\ loci (dafter D (DPost h) s) = loci s.
+Proof. exact CVI_vi_posted_inert. Qed.
+
+Theorem C07_vi_through_infectious_edge : forall vm nodes edges init inf maxtime monitor Xtr pi d t (s : st viworld) l r,
+  let D := mk_vitable vm nodes edges init inf maxtime monitor in
+  VJ vm nodes edges s -> dcall_ok D Xtr (DDyn pi d t) s ->
+  nth (vim_si vm) (vim_specs vm) default_spec = EdgeLocus l r ->
+  exists n m, de_value d = EE n m /\ de_prog d = vi_infect_prog vm /\ pi = vi_mpi monitor
+    /\ (In (n, m) edges \/ In (m, n) edges)
+    /\ getc (cw_st (vi_base (world s))) n = Some l /\ getc (cw_st (vi_base (world s))) m = Some r.
+Proof. exact CVI_vi_through_infectious_edge. Qed.
+
+Theorem C07_vi_entries_are_SI_edges : forall vm nodes edges (s : st viworld) l r,
+  VJ vm nodes edges s -> (vim_si vm < length (vim_specs vm))%nat ->
+  nth (vim_si vm) (vim_specs vm) default_spec = EdgeLocus l r -> Z.eqb l r = false ->
+  ssorted (nth (vim_si vm) (loci s) []) /\
+  forall e, In e (nth (vim_si vm) (loci s) []) <->
+    exists n m, e = EE n m /\ (In (n, m) edges \/ In (m, n) edges)
+      /\ getc (cw_st (vi_base (world s))) n = Some l /\ getc (cw_st (vi_base (world s))) m = Some r.
+Proof. exact CVI_vi_entries. Qed.
+
+Example C07_vi_example_hyps :
+  vi_nopost (sir_vi (1#4)) = true /\ wf_loci (vim_specs (sir_vi (1#4))) = true
+  /\ graph_okb [0; 1; 2]%Z [(0, 1); (1, 2)]%Z = true
+  /\ init_ok (vi_cm (sir_vi (1#4))) [0; 1; 2]%Z [(0, 1); (1, 3); (2, 3)]%Z = true
+  /\ inf_covers [(0, 1); (1, 2)]%Z (initial_infectivities [(0, 1); (1, 2)]%Z [1#2; 1#4]) = true.
+Proof. exact CVI_example_hyps. Qed.
+
+Example C07_vi_example_stoch :
+  let r := dstoch_run (ex_vi None) 50 50 [1#2; 1#2; 1#2; 1#2; 1#2; 1#2] [3#8; 3#4; 1] [0%nat] in
+  r_out r = [OHandler 1 (1 # 2) (1 # 2) (EE 1 0) (Some true); OTap (1 # 2) 0 (NEv 0 1) (EE 1 0);
+             OHandler 0 (3 # 2) (3 # 2) (EN 0) (Some true); OTap (3 # 2) 0 (NEv 0 0) (EN 0);
+             OHandler 1 (7 # 2) (7 # 2) (EE 2 1) (Some true); OTap (7 # 2) 0 (NEv 0 1) (EE 2 1)]
+  /\ r_time r = 7 # 2 /\ r_events r = 3%nat /\ r_stuck r = false
+  /\ loci (r_final r) = [[]; [EN 1; EN 2]]
+  /\ draws (r_final r) = []                                        (* exactly one rank was consumed: by the removal *)
+  /\ cw_occ (vi_base (world (r_final r))) = [(1, 0, 1 # 2); (2, 1, 7 # 2)]%Z
+  /\ Forall unit_rand [1#2; 1#2; 1#2; 1#2; 1#2; 1#2].
+Proof. exact CVI_example_stoch. Qed.
+
+Example C07_vi_example_sync :
+  let r := dsync_run (ex_vi (Some 1)) 50 50 [1#2; 1#4; 1#8; 7#8; 1#2] [] in
+  r_out r = [OPostedRep 0; OHandler 2 0 0 (EN 0) None; OObserve 0 [1%nat; 1%nat]; OTap 0 0 (NPost 2) (EN 0);
+             OHandler 2 1 1 (EN 0) None; OObserve 1 [1%nat; 1%nat]; OTap 1 0 (NPost 2) (EN 0);
+             OHandler 1 1 1 (EE 1 0) (Some true); OTap 1 1 (NEv 1 1) (EE 1 0);
+             OHandler 2 2 2 (EN 0) None; OObserve 2 [1%nat; 2%nat]; OTap 2 0 (NPost 2) (EN 0);
+             OHandler 0 2 2 (EN 0) (Some true); OTap 2 1 (NEv 1 0) (EN 0)]
+  /\ r_time r = 3 /\ r_events r = 5%nat /\ r_steps r = 2%nat /\ r_stuck r = false
+  /\ loci (r_final r) = [[EE 2 1]; [EN 1]].
+Proof. exact CVI_example_sync. Qed.
